@@ -206,6 +206,7 @@ theorem pool_step (c : Cfg) (s : State) (a : Act) (s' : State) (h : PoolInv c s)
       · exact q5 k (Or.inl (List.mem_of_mem_erase hk))
       · exact q5 k (Or.inr hk)
   | drainCancelRun hc hq hp => exact ⟨q1, q2, q3, q4, q5, q6, q7⟩
+  | drainDetach hc hq hp => exact ⟨q1, q2, q3, q4, q5, q6, q7⟩
   | drainSkip hc hq hp => exact ⟨q1, q2, q3, q4, q5, q6, q7⟩
   | drainEnd hc hq => exact ⟨q1, q2, q3, q4, q5, q6, q7⟩
   | drainExc hc hq => exact ⟨q1, q2, q3, q4, q5, q6, q7⟩
